@@ -1,5 +1,222 @@
-"""Self-validation of the checker (thorough tier): see DESIGN.md section 8.  Filled in later."""
+"""Self-validation of the checker (thorough tier, DESIGN.md section 8).
+
+Variants of the *current* source tree are built in a scratch directory (removed afterwards) and the
+property's rules are run on each:
+  must fire   - AST-located edit recipes (pv/selfval_recipes.py) and the seeded breaking changes kept under
+                /verif/seeded/<id>/patch.diff that belong to the property;
+  must stay silent - behaviour-preserving edit recipes and the refactorings kept under /verif/refactors/.
+A variant that cannot be applied to the current tree (the code it edits has changed) is skipped, not
+failed.  A must-fire variant that is not reported, or a silent variant that is reported, makes the run
+exit 2 (the checker is broken) - never 1.
+"""
+from __future__ import annotations
+
+import ast
+import json
+import os
+import shutil
+import subprocess
+import tempfile
+from concurrent.futures import ProcessPoolExecutor
+from pathlib import Path
+from typing import Dict, List, Optional, Tuple
+
+VERIF = Path(__file__).resolve().parent.parent
 
 
-def run_selfval(prop, rule_ids, base_clean):
-    return {'summary': 'not-run', 'broken': [], 'variants': []}
+def _norm_src(src: str) -> str:
+    return ast.unparse(ast.parse(src))
+
+
+def apply_recipe(root: Path, relpath: str, qualname: str, old: str, new: str) -> bool:
+    """Replace the statement/expression of function `qualname` whose normalised source equals `old`
+    by `new` (AST-located: insensitive to layout and comments).  False if not found."""
+    p = root / relpath
+    if not p.exists():
+        return False
+    text = p.read_text()
+    tree = ast.parse(text)
+    target = None
+    parts = qualname.split('.') if qualname else []
+
+    def find(body, names):
+        for st in body:
+            if isinstance(st, (ast.FunctionDef, ast.ClassDef, ast.AsyncFunctionDef)) and st.name == names[0]:
+                if len(names) == 1:
+                    return st
+                return find(st.body, names[1:])
+            if isinstance(st, (ast.If, ast.Try)):
+                r = find([x for x in ast.walk(st) if isinstance(x, (ast.FunctionDef, ast.ClassDef)) and x is not st][:0], names)
+        return None
+    scope = find(tree.body, parts) if parts else tree
+    if scope is None:
+        return False
+    try:
+        want = _norm_src(old)
+    except SyntaxError:
+        want = None
+    try:
+        want_expr = ast.unparse(ast.parse(old, mode='eval').body)
+    except SyntaxError:
+        want_expr = None
+    for n in ast.walk(scope):
+        if isinstance(n, ast.stmt) and want is not None:
+            try:
+                if ast.unparse(n) == want:
+                    target = n
+                    break
+            except Exception:
+                pass
+        if isinstance(n, ast.expr) and want_expr is not None:
+            try:
+                if ast.unparse(n) == want_expr:
+                    target = n
+                    break
+            except Exception:
+                pass
+    if target is None:
+        return False
+    lines = text.splitlines(keepends=True)
+    # character offsets (ast columns are utf-8 byte offsets; penman sources are ASCII on these lines)
+    start = sum(len(l) for l in lines[:target.lineno - 1]) + target.col_offset
+    end = sum(len(l) for l in lines[:target.end_lineno - 1]) + target.end_col_offset
+    indent = ' ' * target.col_offset if isinstance(target, ast.stmt) else ''
+    new_lines = new.split('\n')
+    repl = new_lines[0] + ''.join('\n' + (indent + l if l else l) for l in new_lines[1:])
+    text2 = text[:start] + repl + text[end:]
+    try:
+        ast.parse(text2)
+    except SyntaxError:
+        return False
+    p.write_text(text2)
+    return True
+
+
+def apply_patch(root: Path, patch: Path) -> bool:
+    r = subprocess.run(['git', 'apply', '--unsafe-paths', f'--directory={root}', str(patch)], cwd='/', capture_output=True, text=True)
+    if r.returncode == 0:
+        return True
+    r = subprocess.run(['patch', '-p1', '-s', '--dry-run', '-i', str(patch)], cwd=root, capture_output=True, text=True)
+    if r.returncode != 0:
+        return False
+    r = subprocess.run(['patch', '-p1', '-s', '-i', str(patch)], cwd=root, capture_output=True, text=True)
+    return r.returncode == 0
+
+
+def _worker(job: dict) -> dict:
+    import sys
+    sys.path.insert(0, str(VERIF))
+    from pv.core import Ctx
+    from pv.src import AnalysisError, Repo
+    from pv import rules  # noqa
+    tmp = Path(tempfile.mkdtemp(prefix='pv-selfval-'))
+    out = {'id': job['id'], 'kind': job['kind'], 'applied': False, 'fired': [], 'errors': []}
+    try:
+        shutil.copytree(Path(job['src_root']) / 'penman', tmp / 'penman')
+        if job.get('patch'):
+            ok = apply_patch(tmp, Path(job['patch']))
+        else:
+            ok = True
+            for ed in job['edits']:
+                ok = ok and apply_recipe(tmp, ed['file'], ed['func'], ed['old'], ed['new'])
+        out['applied'] = bool(ok)
+        if not ok:
+            return out
+        try:
+            ctx = Ctx(Repo(str(tmp)), job.get('tier', 'quick'))
+        except AnalysisError as exc:
+            out['errors'].append(f'model: {exc}')
+            return out
+        for rid in job['rules']:
+            try:
+                rep = ctx.run_rule(rid)
+                for v in rep.violations():
+                    out['fired'].append([rid, v.key])
+            except AnalysisError as exc:
+                out['errors'].append(f'{rid}: {str(exc)[:160]}')
+            except Exception as exc:      # noqa
+                out['errors'].append(f'{rid}: internal {type(exc).__name__}: {str(exc)[:120]}')
+        return out
+    finally:
+        shutil.rmtree(tmp, ignore_errors=True)
+
+
+def run_selfval(prop: str, rule_ids: List[str], base_clean: bool, src_root: Optional[str] = None, jobs: int = 16) -> dict:
+    if not base_clean:
+        return {'summary': 'skipped (the analysed tree itself has violations)', 'broken': [], 'variants': []}
+    from .selfval_recipes import RECIPES
+    src_root = src_root or os.environ.get('VERIF_REPO') or '/repo'
+    work: List[dict] = []
+    expect: Dict[str, dict] = {}
+    # quick-tier bounds inside variants keep the corpus fast; rules whose bounds matter are listed explicitly
+    for r in RECIPES:
+        if not (set(r['rules']) & set(rule_ids)):
+            continue
+        rules = [x for x in r['rules'] if x in rule_ids]
+        jid = f'recipe:{r["id"]}'
+        work.append({'id': jid, 'kind': r['kind'], 'src_root': src_root, 'edits': r['edits'], 'rules': rules})
+        expect[jid] = r
+    seeded = VERIF / 'seeded'
+    if seeded.is_dir():
+        for d in sorted(seeded.iterdir()):
+            mf = d / 'meta.json'
+            if not mf.exists() or not (d / 'patch.diff').exists():
+                continue
+            meta = json.loads(mf.read_text())
+            props = [meta.get('property')] + list(meta.get('also_breaks', []))
+            if prop not in props:
+                continue
+            jid = f'seed:{d.name}'
+            work.append({'id': jid, 'kind': 'fire', 'src_root': src_root, 'patch': str(d / 'patch.diff'), 'rules': list(rule_ids)})
+            expect[jid] = {'kind': 'fire', 'expect_rule': None}
+    refs = VERIF / 'refactors'
+    if refs.is_dir():
+        for d in sorted(refs.iterdir()):
+            if (d / 'patch.diff').exists():
+                jid = f'refactor:{d.name}'
+                work.append({'id': jid, 'kind': 'silent', 'src_root': src_root, 'patch': str(d / 'patch.diff'), 'rules': list(rule_ids)})
+                expect[jid] = {'kind': 'silent'}
+    results: List[dict] = []
+    if work:
+        with ProcessPoolExecutor(max_workers=min(jobs, len(work))) as ex:
+            results = list(ex.map(_worker, work))
+    broken: List[str] = []
+    rows = []
+    n_fire = n_silent = n_skip = n_undecided = 0
+    for res in results:
+        exp = expect[res['id']]
+        row = {'id': res['id'], 'kind': res['kind'], 'applied': res['applied'], 'fired': res['fired'][:4], 'errors': res['errors'][:3]}
+        if not res['applied']:
+            n_skip += 1
+            row['verdict'] = 'skipped (does not apply to the current tree)'
+        elif res['kind'] == 'fire':
+            ok = bool(res['fired'])
+            if ok and exp.get('expect_rule'):
+                ok = any(f[0] == exp['expect_rule'] and (exp.get('expect_key', '') in f[1]) for f in res['fired'])
+            if ok:
+                n_fire += 1
+                row['verdict'] = 'fired as required'
+            elif res['errors']:
+                n_undecided += 1
+                row['verdict'] = 'not reported: the analysis could not decide (ANALYSIS-ERROR on the variant)'
+                broken.append(f'{res["id"]}: must fire but the rules only produced analysis errors: {res["errors"][:1]}')
+            else:
+                row['verdict'] = 'MISSED'
+                broken.append(f'{res["id"]}: must fire on {exp.get("expect_rule") or "some rule of " + prop} but nothing was reported')
+        else:
+            if res['fired']:
+                row['verdict'] = 'FALSE ALARM'
+                broken.append(f'{res["id"]}: behaviour-preserving variant reported by {res["fired"][:2]}')
+            elif res['errors']:
+                n_undecided += 1
+                row['verdict'] = 'undecided (fail-closed ANALYSIS-ERROR on a behaviour-preserving variant)'
+            else:
+                n_silent += 1
+                row['verdict'] = 'silent as required'
+        rows.append(row)
+    return {
+        'summary': f'{n_fire} fired, {n_silent} silent, {n_undecided} undecided, {n_skip} skipped, {len(broken)} broken',
+        'broken': broken, 'variants': rows,
+        'counts': {'must_fire_ok': n_fire, 'must_stay_silent_ok': n_silent, 'undecided': n_undecided, 'skipped': n_skip,
+                   'broken': len(broken), 'total': len(results)},
+    }
